@@ -4,6 +4,7 @@ import (
 	"bytes"
 	"encoding/json"
 	"fmt"
+	"github.com/tonistiigi/fsutil"
 	"io"
 	"os"
 	"os/exec"
@@ -35,6 +36,9 @@ type hpkt struct {
 	Xattrs map[string]string `json:"xattrs,omitempty"`
 	Size   int               `json:"size,omitempty"`
 	ID     uint32            `json:"id,omitempty"`
+	// Mtime != 0: the stat mimics an entry the destination already holds (its modification time, and Size is sent as given
+	// whatever the kind)
+	Mtime int64 `json:"mtime,omitempty"`
 }
 
 type hostileCase struct {
@@ -42,6 +46,12 @@ type hostileCase struct {
 	Script []hpkt     `json:"script"`
 	Dst    model.Tree `json:"dst"` // prior destination content (may contain symlinks to /outside)
 	Origin string     `json:"origin"`
+	// receive options: merge mode, and (when not nil) a metadata-only selector that selects exactly these paths
+	Merge    bool     `json:"merge,omitempty"`
+	Selected []string `json:"selected,omitempty"`
+	MetaOnly bool     `json:"metaOnly,omitempty"`
+	// Rejected: paths the receiver's own Filter rejects
+	Rejected []string `json:"rejected,omitempty"`
 }
 
 func (p hpkt) stat() *types.Stat {
@@ -71,6 +81,11 @@ func (p hpkt) stat() *types.Stat {
 		st.Devmajor, st.Devminor = 1, 3
 	default:
 		st.Mode = 0644
+		st.Linkname = p.Link
+	}
+	if p.Mtime != 0 {
+		st.ModTime = p.Mtime
+		st.Size = int64(p.Size)
 		st.Linkname = p.Link
 	}
 	if len(p.Xattrs) > 0 {
@@ -307,7 +322,31 @@ func hostileChild(args []string) {
 				}
 			}
 		}
-		res, err := RunSync(hc.Case, "/nosrc", dst, SyncOpts{Mode: "dirty", Differ: "metadata", CapS2R: 4, CapR2S: 4,
+		mode := "dirty"
+		if hc.Merge {
+			mode = "merge"
+		}
+		var metaSel fsutil.FilterFunc
+		if hc.MetaOnly {
+			sel := map[string]bool{}
+			for _, p := range hc.Selected {
+				sel[p] = true
+			}
+			metaSel = func(p string, st *types.Stat) bool { return sel[filepath.ToSlash(p)] }
+		}
+		var rejFilter fsutil.FilterFunc
+		rejPaths := [][][]int{}
+		for _, p := range hc.Rejected {
+			rejPaths = append(rejPaths, vt.P(p))
+		}
+		if len(hc.Rejected) > 0 {
+			rej := map[string]bool{}
+			for _, p := range hc.Rejected {
+				rej[p] = true
+			}
+			rejFilter = func(p string, st *types.Stat) bool { return !rej[filepath.ToSlash(p)] }
+		}
+		res, err := RunSync(hc.Case, "/nosrc", dst, SyncOpts{Mode: mode, Differ: "metadata", CapS2R: 4, CapR2S: 4, MetadataOnly: metaSel, Filter: rejFilter,
 			PuppetS: hostileSender(hc.Script), Timeout: 2 * time.Second, NoProgress: true,
 			Content: func(p string) ([]byte, bool) {
 				if n, ok := sizes[p]; ok {
@@ -315,7 +354,7 @@ func hostileChild(args []string) {
 				}
 				return nil, false
 			},
-			Extra: vt.Ev{"input": vt.Opaque(hc), "origin": hc.Origin, "hostile": true, "outsideBefore": ob}})
+			Extra: vt.Ev{"input": vt.Opaque(hc), "origin": hc.Origin, "hostile": true, "outsideBefore": ob, "rejectedPaths": rejPaths}})
 		if err != nil {
 			fmt.Fprintln(os.Stderr, "runsync:", err)
 			os.Exit(2)
@@ -444,6 +483,44 @@ func Hostile(c *Ctx) error {
 			}
 		}
 		rec(nil)
+		// receive options: a metadata-only selector that does not select the source of a hard link it selects, in merge mode
+		// (nothing is deleted), over destinations that hold symlinks to the outside
+		for di, d := range dests {
+			for _, merge := range []bool{false, true} {
+				for _, linkTo := range []string{"d/x", "l/x", "a/x"} {
+					dir := strings.Split(linkTo, "/")[0]
+					cases = append(cases, hostileCase{Script: []hpkt{{T: "STAT", Path: dir, Kind: "dir"}, {T: "STAT", Path: linkTo, Kind: "file", Size: 2},
+						{T: "STAT", Path: "zlink", Kind: "file", Link: linkTo}}, Dst: d, Merge: merge, MetaOnly: true, Selected: []string{"zlink"},
+						Origin: fmt.Sprintf("metaOnlyLinkToUnselected/dest%d", di)})
+				}
+			}
+		}
+		// the receiver's own Filter rejects the entry a later hard link names (and its directory)
+		for di, d := range dests {
+			for _, merge := range []bool{false, true} {
+				for _, linkTo := range []string{"d/x", "l/x", "a/x"} {
+					dir := strings.Split(linkTo, "/")[0]
+					for _, rej := range [][]string{{linkTo}, {dir, linkTo}, {dir}} {
+						cases = append(cases, hostileCase{Script: []hpkt{{T: "STAT", Path: dir, Kind: "dir"}, {T: "STAT", Path: linkTo, Kind: "file", Size: 2},
+							{T: "STAT", Path: "zlink", Kind: "file", Link: linkTo}}, Dst: d, Merge: merge, Rejected: rej,
+							Origin: fmt.Sprintf("filterRejectsLinkSource/dest%d", di)})
+					}
+				}
+			}
+		}
+		// mimicry: an entry of another type that carries the link name, size, owner and modification time of a symlink the
+		// destination already holds (what the metadata differ compares), followed by a child below it
+		for di, d := range dests {
+			for _, l := range d {
+				if l.Type != "symlink" {
+					continue
+				}
+				for _, kind := range []string{"dir", "file", "fifo", "dirsymlink"} {
+					cases = append(cases, hostileCase{Script: []hpkt{{T: "STAT", Path: l.Path, Kind: kind, Link: l.Link, Size: len(l.Link), Mtime: l.Mtime},
+						{T: "STAT", Path: l.Path + "/x", Kind: "file", Size: 2}}, Dst: d, Origin: fmt.Sprintf("mimic/%s/dest%d", kind, di)})
+				}
+			}
+		}
 		// reactive scripts: DATA for a file that is already complete (empty / non-empty), after the receiver's FIN
 		for di, d := range dests {
 			for _, sz := range []int{0, 3} {
